@@ -706,19 +706,22 @@ def translate_repo(repo, config_dir=None, extra_defs=()):
     return funs, stats
 
 def emit(funs, stats, repo):
-    lines = ['/-  REGENERATED by tools/c2lean.py from the C sources of %s — do not edit.  -/' % repo,
+    lines = ['/-  REGENERATED by tools/c2lean.py from the C sources of the repository under verification — do not edit.  -/',
              'import TJ.MiniC.Sem', 'namespace TJ.Gen.MiniC', 'open TJ.MiniC', '',
              'def seqs : List Stmt → Stmt', '  | [] => .skip', '  | [s] => s', '  | s :: r => .seq s (seqs r)', '']
     for f in funs:
         if 'error' in f:
             lines += ['/-- NOT TRANSLATED: %s -/' % f['error'].replace('-/', '- /'),
-                      'def %s : FunDecl := { name := "%s", nparams := 0, nvars := 0, allocs := [], body := .ret none }' % (lean_name(f['name']), f['name']), '']
+                      'def %s : FunDecl := { name := "%s", nparams := 0, nvars := 1, allocs := [], body := .load 0 .u8 (.lit 0) }' % (lean_name(f['name']), f['name']), '']
             continue
         lines.append('/-- %s (%s): %s -/' % (f['name'], f['file'], ', '.join('%s : %s' % p for p in f['params'])))
         lines.append('def %s : FunDecl :=' % lean_name(f['name']))
         lines.append('  { name := "%s", nparams := %d, nvars := %d, allocs := [%s],' % (f['name'], f['nparams'], f['nvars'], ', '.join('(%d, %d)' % a for a in f['allocs'])))
         lines.append('    body := ' + lean_stmt(f['body'], 6) + ' }')
         lines.append('')
+    for i, f in enumerate(funs):
+        lines.append('def idx_%s : Nat := %d' % (re.sub(r'\W', '_', f['name']), i))
+    lines.append('')
     lines.append('def prog : Program := [' + ', '.join(lean_name(f['name']) for f in funs) + ']')
     lines.append('')
     lines.append('def funNames : List String := [' + ', '.join('"%s"' % f['name'] for f in funs) + ']')
